@@ -4,6 +4,7 @@ import KoordVerif.Proofs.C12None
 import KoordVerif.Proofs.C12ExtStatic
 import KoordVerif.Proofs.C12ExtEnv
 import KoordVerif.Proofs.C12ExtParse
+import KoordVerif.Proofs.C12ExtKind
 /-
 C12 — property theorems (DESIGN.md §4 C12, Appendix A.5).
 
@@ -1312,5 +1313,86 @@ example : (∀ k, Valid exParent subMask (applyWrites exS.files ((runBatch cpuse
 
 example : FreshWrites exS.files (runBatch cpusetDom false exLevels exS).2 :=
   no_write_of_held_value cpusetDom_eq rfl false exLevels exS exT merge_changes_cpuset same_refl_cpuset ex_cacheOK ex_batchOK
+
+/-! ### updaters of mixed kinds: the leveled rewrite is safe only when every updater is mergeable -/
+
+/-- **leveled_batch_valid_needs_mergeable**: a LeveledUpdateBatch whose updater OBJECTS are all mergeable (whatever
+    constructor produced them) leaves a valid hierarchy after every single write, ends on its target and keeps the
+    cache consistent — also with directories missing.  The hypothesis is about each updater, not about the resource:
+    it is what the callers' constructors must deliver (Ties: tie_leveled_call_sites). -/
+theorem leveled_batch_valid_needs_mergeable {D : Dom α} (hD : DomEq D) {le : α → α → Prop} (hO : DomOrd D le)
+    (exp : Bool) (ex : Nat → Bool) (levels : List (List (UpdK α))) (s : St α) (T : Nat → α)
+    (parent : Nat → Option Nat) (hk : AllMergeable levels)
+    (hc : CacheOK s) (hb : BatchOK (eraseKinds levels) s.files T) (hlev : Levelled parent (eraseKinds levels))
+    (hold : Valid (liveParent parent ex) le s.files) (htgt : Valid (liveParent parent ex) le T) :
+    (∀ k, Valid (liveParent parent ex) le (applyWrites s.files ((runBatchK D exp ex levels s).2.take k))) ∧
+    (∀ n, (runBatchK D exp ex levels s).1.files n = liveT ex s.files T n) ∧
+    CacheOK (runBatchK D exp ex levels s).1 := by
+  rw [runBatchK_all_mergeable D exp ex levels s hk]
+  exact ⟨missing_dirs_every_prefix_valid (domEq_withKind hD true) rfl exp ex _ s T (domOrd_withKind hO true) parent hc hb hlev
+      hold htgt,
+    missing_dirs_final (domEq_withKind hD true) rfl exp ex _ s T hc hb,
+    (missing_dirs_cache_consistent (domEq_withKind hD true) rfl exp ex _ s T hc hb).1⟩
+
+/-- the shrink of the cpu-normalization callbacks (ratio 1.0 → 1.5) on pod(0) ← container(1): cpu.cfs_quota_us
+    200000 / 150000 → 133334 / 100000. -/
+def kdParent : Nat → Option Nat
+  | 1 => some 0 | _ => none
+def kdS : St Int := { files := fun n => if n = 0 then 200000 else 150000, cache := fun _ => none, skip := [] }
+def kdLevels (podKind : Bool) : List (List (UpdK Int)) :=
+  [[{ node := 0, tgt := some 133334, mergeable := podKind }], [{ node := 1, tgt := some 100000, mergeable := true }]]
+
+/-- **leveled_batch_nonmergeable_counterexample**: the same batch with ONE updater built by a non-mergeable
+    constructor (same update function, same final contents) writes the pod exactly in the top-down sweep: after the
+    first write the container holds 150000 under a pod of 133334. -/
+theorem leveled_batch_nonmergeable_counterexample :
+    ¬ (∀ k, Valid kdParent limLe (applyWrites kdS.files ((runBatchK limDom false (fun _ => true) (kdLevels false) kdS).2.take k))) ∧
+    (runBatchK limDom false (fun _ => true) (kdLevels false) kdS).2 = [(0, 133334), (1, 100000)] ∧
+    (runBatchK limDom false (fun _ => true) (kdLevels true) kdS).2 = [(1, 100000), (0, 133334)] := by
+  refine ⟨fun h => ?_, by decide, by decide⟩
+  have := h 1 1 0 rfl
+  unfold limLe at this; revert this; decide
+
+/-- memory.min / memory.low back to ZERO (cgreconcile, minLimitPercent 100 → 0) on qos(0) ← pod(1) ← container(2),
+    1 GiB everywhere: with the updaters of target 0 built by the common (non-mergeable) constructor the qos cgroup is
+    zeroed first. -/
+def kzParent : Nat → Option Nat
+  | 1 => some 0 | 2 => some 1 | _ => none
+def kzS : St Int := { files := fun n => if n ≤ 2 then 1073741824 else 0, cache := fun _ => none, skip := [] }
+def kzLevels (k : Bool) : List (List (UpdK Int)) :=
+  [[{ node := 0, tgt := some 0, mergeable := k }], [{ node := 1, tgt := some 0, mergeable := k }],
+   [{ node := 2, tgt := some 0, mergeable := k }]]
+
+theorem zero_target_nonmergeable_counterexample :
+    ¬ (∀ k, Valid kzParent limLe (applyWrites kzS.files ((runBatchK limDom false (fun _ => true) (kzLevels false) kzS).2.take k))) ∧
+    (runBatchK limDom false (fun _ => true) (kzLevels false) kzS).2 = [(0, 0), (1, 0), (2, 0)] ∧
+    (runBatchK limDom false (fun _ => true) (kzLevels true) kzS).2 = [(2, 0), (1, 0), (0, 0)] := by
+  refine ⟨fun h => ?_, by decide, by decide⟩
+  have := h 1 1 0 rfl
+  unfold limLe at this; revert this; decide
+
+/-- **same_level_parent_child_counterexample** (the `Levelled` hypothesis is necessary, and cgreconcile does not meet
+    it): calculateResources puts the kubepods root (Guaranteed, node 0) in the SAME level as its children burstable
+    (1) and besteffort (2); the bottom-up sweep visits a level in forward order, so on a shrink (memory.min
+    1.25 GiB → 0 with one burstable pod) kubepods is lowered BEFORE burstable — all updaters mergeable. -/
+def slParent : Nat → Option Nat
+  | 1 => some 0 | 2 => some 0 | _ => none
+def slS : St Int := { files := fun n => if n ≤ 1 then 1342177280 else 0, cache := fun _ => none, skip := [] }
+def slLevels : List (List (UpdK Int)) :=
+  [[{ node := 0, tgt := some 0, mergeable := true }, { node := 1, tgt := some 0, mergeable := true },
+    { node := 2, tgt := some 0, mergeable := true }]]
+
+theorem same_level_parent_child_counterexample :
+    AllMergeable slLevels ∧ ¬ Levelled slParent (eraseKinds slLevels) ∧
+    (runBatchK limDom false (fun _ => true) slLevels slS).2 = [(0, 0), (1, 0)] ∧
+    ¬ (∀ k, Valid slParent limLe (applyWrites slS.files ((runBatchK limDom false (fun _ => true) slLevels slS).2.take k))) := by
+  refine ⟨by decide, fun h => ?_, by decide, fun h => ?_⟩
+  · exact h.2 _ (List.mem_cons_self ..) { node := 1, tgt := some 0 } (by simp [UpdK.upd])
+      { node := 0, tgt := some 0 } (by simp [UpdK.upd]) rfl
+  · have := h 1 1 0 rfl
+    unfold limLe at this; revert this; decide
+
+/-- non-vacuity of leveled_batch_valid_needs_mergeable on the ratio shrink. -/
+example : AllMergeable (kdLevels true) := by decide
 
 end KoordVerif.C12
